@@ -157,6 +157,17 @@ class World:
                 suspended = False
                 r.count('struct_resynchronised_after_fault')
             r.count('struct_invariant_checks')
+            # error states agree as well: after a successful read of the struct no member is left in error state
+            # (members that were never read start as 'not initialized' in the separate layout: judged after struct reads only)
+            if m.parameters['ctrl'].readerror is None and op in ('read_struct', 'read_struct_wire'):
+                r.count('struct_error_state_checks')
+                inerr = [kk for kk in members if m.parameters['m_' + kk].readerror is not None]
+                if inerr:
+                    r.violation(f'C18/struct/{layout}/member-stays-in-error-after/{op}',
+                                f'after {op}: the struct holds {dict(m.ctrl)} without error, the members {inerr} are still in error state '
+                                f'({m.parameters["m_" + inerr[0]].readerror!r})'[:250],
+                                {'sub': 'struct', 'combined': combined, 'readonly': readonly, 'members': members, 'ops': ops})
+                    break
             st = m.ctrl
             bad = [kk for kk in members if st.get(kk) != getattr(m, 'm_' + kk)]
             if bad and not diverged:
